@@ -1,71 +1,321 @@
 """C10 — ThreadPool: lockset, take-atomic, run-unlocked, predicate-write => notify,
-notify kind, job lifetime, busy pairing, join unlocked (engine B)."""
-from engine import ir, dtable, match, sync, cfg as cfgm
+notify kind, job lifetime, busy pairing, join unlocked (engine B).
+
+Verdict policy of this file: a violation is reported only on positive evidence (a lock state computed over lock
+operations that are all recognised, a CFG path that avoids a set of fully classified operations, a truth table, an
+evaluation of the join loop for a concrete thread count).  Whatever is not recognised (an unknown use of the mutex or of
+a guard, an unclassified operation on a counter / the queue / the job object, a helper that was not inlined, a branch on a
+control-flow flag on the witness path) makes the answer `cannot decide` (dtable.Undecidable, exit 2)."""
+from engine import ir, dtable, match, sync, skel
 from engine.ir import kids, strip_casts, const_int, ref_of
 
 TP = "tlx::ThreadPool"
 MUTEX = "mutex_"
-GUARDED = ("jobs_",)          # frozen table: field -> guarded by mutex_   (confirmed by reading: every access of jobs_ is under mutex_)
+QUEUE = "jobs_"
+GUARDED = (QUEUE,)          # frozen table: field -> guarded by mutex_   (confirmed by reading: every access of jobs_ is under mutex_)
 # frozen exception table for WRITE-NOTIFY: (function, field, cv) -> reason
 NOTIFY_EXCEPTIONS = {
     ("~ThreadPool", "terminate_", "cv_finished_"): "no thread may be waiting for completion while the pool is being destroyed",
 }
 
+WRAPPERS = ("ImplicitCastExpr", "CStyleCastExpr", "CXXStaticCastExpr", "CXXFunctionalCastExpr", "CXXReinterpretCastExpr", "CXXConstCastExpr",
+            "ParenExpr", "MaterializeTemporaryExpr", "ExprWithCleanups", "CXXBindTemporaryExpr", "ConstantExpr")
+WAITS = ("wait", "wait_for", "wait_until")
+PUSH = ("push_back", "emplace_back", "push_front", "emplace_front", "push", "emplace")
+POP = ("pop_front", "pop_back", "pop", "clear", "erase")
+CONTAINER_READ = ("empty", "size", "front", "back", "begin", "end", "cbegin", "cend", "rbegin", "rend", "crbegin", "crend", "at", "operator[]", "max_size", "data")
+# algorithms of the standard library that call their functor before they return, on the calling thread
+SYNC_ALGOS = ("for_each", "for_each_n", "all_of", "any_of", "none_of", "find_if", "find_if_not", "count_if", "generate", "generate_n", "transform",
+              "remove_if", "accumulate")
 
-def pred_info(tu, wait):
-    """(normalised predicate text, {atom: monotone direction}) of a wait predicate lambda"""
-    lam = wait["pred"]
-    negate = False
-    if lam is None:
-        if wait.get("loop_cond") is None:
-            return None
-        # while (!pred) cv.wait(lock): the predicate is the negated loop condition
-        e = wait["loop_cond"]
-        negate = True
-        lf = wait["fn"]
-    else:
-        lf = tu.by_did.get(lam.get("fn"))
-        if lf is None:
-            raise dtable.Undecidable("predicate lambda body not in IR")
-        rets = [x for x in ir.walk(lf.body) if x["k"] == "ReturnStmt"]
-        if len(rets) != 1:
-            raise dtable.Undecidable("%s: predicate lambda with several returns" % lf.loc)
-        e = kids(rets[0])[0]
 
-    def atomize(n, run):
-        c = match.call_named(n, ("empty",))
-        if c is not None and "callee" in strip_casts(n) and match.this_field(kids(strip_casts(n))[0]):
-            return ("%s.empty" % match.this_field(kids(strip_casts(n))[0]), False)
-        b = match.binop(n, ("==", "!=", ">", "<"))
-        if b:
-            f = field_of_atomic(b[1])
-            if f and const_int(b[2]) == 0:
-                return ("%s==0" % f, b[0] in ("!=", ">"))
-        f = field_of_atomic(n)
-        if f:
-            return (f, False)
+def undecided(fn, node, what):
+    raise dtable.Undecidable("%s: %s" % (fn.nloc(node) if node is not None else fn.loc, what))
+
+
+def up(fn, n):
+    """(p, c, casts): nearest ancestor p of n that is not a cast / wrapper, the child c of p through which n is reached, and the
+    cast kinds passed on the way"""
+    c, p, casts = n, fn.parent(n), []
+    while p is not None and p["k"] in WRAPPERS:
+        casts.append(p.get("cast"))
+        c, p = p, fn.parent(p)
+    return p, c, casts
+
+
+def is_first(p, c):
+    return bool(kids(p)) and kids(p)[0] is not None and kids(p)[0]["id"] == c["id"]
+
+
+def is_invoke(x):
+    """x calls its first child as a functor: f(...) or f.operator()(...)"""
+    return "callee" in x and bool(kids(x)) and (x.get("op") == "()" or (bool(x.get("member_call")) and x["callee"]["name"] == "operator()"))
+
+
+def mentions(e, field):
+    return any(y["k"] == "MemberExpr" and match.this_field(y) == field for y in ir.walk(e))
+
+
+# ------------------------------------------------------------------------------------------------ uses of the data members
+def field_uses(fn):
+    """every mention of a data member of *this in fn, classified by what is done to it:
+    [(field, kind, node, info)] with kind
+      read     value / const member / iterator access
+      push     container grows            pop      container shrinks (pop_*, clear, erase)
+      delta    info = (sign, amount|None)  (++ -- += -= fetch_add fetch_sub f = f +- e)
+      set      info = assigned expression (= store exchange)
+      sync     wait / notify / lock / join on a synchronisation member
+      unknown  anything else: bound to a reference, passed to a function, address taken, unknown member function"""
+    out = []
+    for m in fn.nodes():
+        if m["k"] != "MemberExpr":
+            continue
+        f = match.this_field(m)
+        if not f:
+            continue
+        p, c, casts = up(fn, m)
+        kind, node, info = "unknown", m, None
+        if p is not None and "callee" in p and is_first(p, c) and (p.get("member_call") or p["k"] == "CXXOperatorCallExpr"):
+            name = p["callee"]["name"]
+            args = kids(p)[1:]
+            node = p
+            if name in PUSH:
+                kind = "push"
+            elif name in POP:
+                kind = "pop"
+            elif name in ("operator++", "operator--"):
+                kind, info = "delta", ("+" if name == "operator++" else "-", 1)
+            elif name in ("fetch_add", "fetch_sub", "operator+=", "operator-="):
+                kind, info = "delta", ("+" if name in ("fetch_add", "operator+=") else "-", const_int(args[0]) if args else None)
+            elif name in ("operator=", "store", "exchange"):
+                kind, info = "set", (args[0] if args else None)
+                d = match.field_delta(p, f)
+                if d:
+                    kind, info = "delta", (d[0], 1 if d[1] == 1 else const_int(d[1]))
+            elif name in WAITS or name in ("notify_one", "notify_all", "lock", "unlock", "try_lock", "join", "joinable"):
+                kind = "sync"
+            elif p["callee"].get("const") or name in CONTAINER_READ or name == "load" or name.startswith("operator "):
+                kind = "read"
+        elif p is not None and p["k"] == "UnaryOperator" and p.get("op") in ("++", "--"):
+            kind, node, info = "delta", p, ("+" if p["op"] == "++" else "-", 1)
+        elif p is not None and p["k"] == "CompoundAssignOperator" and is_first(p, c):
+            node = p
+            if p.get("op") in ("+=", "-="):
+                kind, info = "delta", (p["op"][0], const_int(kids(p)[1]))
+        elif p is not None and p["k"] == "BinaryOperator" and p.get("op") == "=" and is_first(p, c):
+            kind, node, info = "set", p, kids(p)[1]
+            d = match.field_delta(p, f)
+            if d:
+                kind, info = "delta", (d[0], 1 if d[1] == 1 else const_int(d[1]))
+        elif "LValueToRValue" in casts:
+            kind = "read"
+        out.append((f, kind, node, info))
+    return out
+
+
+def is_bool_field(m):
+    return "bool" in (strip_casts(m).get("ty") or "")
+
+
+def effects_of(f, kind, node, info):
+    """atom -> truth the operation gives it ('true' | 'false' | 'unknown'); atoms are named as in the wait predicates:
+    container `f.empty`, counter `f==0`, flag `f`"""
+    if kind == "push":
+        return {f + ".empty": "false"}
+    if kind == "pop":
+        return {f + ".empty": "true"}
+    if kind == "delta":
+        sign, amount = info
+        if amount is None or amount <= 0:
+            return {f + "==0": "unknown"}
+        return {f + "==0": "false" if sign == "+" else "true"}
+    if kind == "set":
+        v = const_int(info) if info is not None else None
+        if v is None:
+            return {f: "unknown", f + "==0": "unknown", f + ".empty": "unknown"}
+        return {f: "true" if v else "false", f + "==0": "true" if v == 0 else "false"}
+    if kind == "unknown":
+        return {f: "unknown", f + "==0": "unknown", f + ".empty": "unknown"}
+    return {}
+
+
+# ------------------------------------------------------------------------------------------------ lock state
+def is_guard_ty(ty):
+    t = (ty or "").replace("const ", "").strip()
+    return any(t.startswith(p) for p in sync.GUARDS)
+
+
+class Locks:
+    """lock state of mutex_ in the members of the pool.  A member that is called from another member is analysed with the
+    lock state of its call sites at entry (and, unless it receives the guard, also as an entry point of its own); a query
+    whose answer differs between these is undecidable.  A function that uses the mutex or a guard in a way the flow does
+    not model gives no answer at all."""
+
+    def __init__(self, tu, fns):
+        self.tu, self.fns = tu, fns
+        self.by_did = {f.did: f for f in fns}
+        self.gparams = set(p["did"] for f in fns for p in f.params if is_guard_ty(p.get("ty")))
+        self.base = {}
+        for f in fns:
+            if f.cfg:
+                self.base[f.did] = sync.LockFlow(f, self.mutex)
+        self.sites = {}
+        for f in fns:
+            for x in f.nodes():
+                if "callee" in x and x["callee"].get("did") in self.by_did and x["callee"]["did"] != f.did:
+                    self.sites.setdefault(x["callee"]["did"], []).append((f, x))
+        self._variants = {}
+        self._unknown = {}
+        self._busy = set()
+
+    def mutex(self, e):
+        return match.this_field(e) == MUTEX or ref_of(e) in self.gparams
+
+    def g(self, fn):
+        if fn.did not in self.base:
+            undecided(fn, None, "no control-flow graph for %s" % fn.qname)
+        return self.base[fn.did].g
+
+    def guards(self, fn):
+        return set(self.base[fn.did].guards) | set(p["did"] for p in fn.params if is_guard_ty(p.get("ty")))
+
+    def callers(self, fn):
+        return self.sites.get(fn.did, [])
+
+    def unknown_use(self, fn):
+        """(node, what) of the first use of mutex_ / of a guard in fn that the lock flow does not model, else None"""
+        if fn.did in self._unknown:
+            return self._unknown[fn.did]
+        base = self.base[fn.did]
+        gd = self.guards(fn)
+        bad = None
+        for x in fn.nodes():
+            if bad:
+                break
+            if x["k"] == "VarDecl" and is_guard_ty(x.get("ty")):
+                if x["did"] not in base.guards:
+                    if any((y["k"] == "MemberExpr" and match.this_field(y) == MUTEX) or (y["k"] == "DeclRefExpr" and y["ref"]["id"] in gd) for y in ir.walk(x)):
+                        bad = (x, "construction of the guard `%s` not understood" % x.get("name"))
+                else:
+                    ctor = strip_casts(kids(x)[0])
+                    for a in kids(ctor)[1:]:
+                        ty = (a.get("ty") or "") if a is not None else ""
+                        if "defer_lock" not in ty and "adopt_lock" not in ty:
+                            bad = (x, "guard `%s` constructed with an argument that is not understood (%s)" % (x.get("name"), dtable.describe(a)[:40]))
+                continue
+            is_m = x["k"] == "MemberExpr" and match.this_field(x) == MUTEX
+            is_g = x["k"] == "DeclRefExpr" and x["ref"]["id"] in gd
+            if not (is_m or is_g):
+                continue
+            p, c, _ = up(fn, x)
+            ok = False
+            if p is not None and "callee" in p:
+                name = p["callee"]["name"]
+                rec = p["callee"].get("record") or ""
+                if p.get("member_call") and is_first(p, c) and name in ("lock", "unlock", "try_lock"):
+                    ok = True
+                elif is_g and p.get("member_call") and is_first(p, c) and (name in ("owns_lock", "operator bool") or p["callee"].get("const")):
+                    ok = True
+                elif is_g and p.get("member_call") and not is_first(p, c) and name in WAITS and "condition_variable" in rec:
+                    ok = True
+                elif is_m and p["k"] in ("CXXConstructExpr", "CXXTemporaryObjectExpr"):
+                    v, _c, _x = up(fn, p)
+                    ok = v is not None and v["k"] == "VarDecl" and v.get("did") in base.guards
+            if not ok:
+                bad = (x, "`%s` is used in a way the lock flow does not model (%s)"
+                       % (MUTEX if is_m else x["ref"]["name"], dtable.describe(p)[:50] if p is not None and p["k"] not in ("CompoundStmt", "DeclStmt") else "escapes"))
+        self._unknown[fn.did] = bad
+        return bad
+
+    def variants(self, fn):
+        if fn.did in self._variants:
+            return self._variants[fn.did]
+        if fn.did not in self.base:
+            undecided(fn, None, "no control-flow graph for %s" % fn.qname)
+        if fn.did in self._busy:
+            undecided(fn, None, "%s is called recursively: lock state at its entry not derived" % fn.qname)
+        self._busy.add(fn.did)
+        try:
+            entries = set()
+            for cf, call in self.callers(fn):
+                s = self.held(cf, call)
+                entries |= {True, False} if s is None else {s}
+            if not entries or not any(is_guard_ty(p.get("ty")) for p in fn.params):
+                entries.add(False)          # an entry point of its own (public member, thread main function)
+            out = [self.base[fn.did] if e is False else sync.LockFlow(fn, self.mutex, entry_held=e) for e in sorted(entries)]
+        finally:
+            self._busy.discard(fn.did)
+        self._variants[fn.did] = out
+        return out
+
+    def held(self, fn, node=None, pos=None):
+        """True / False / None (held on some paths only) just before node (or CFG position pos) of fn"""
+        if fn.did not in self.base:
+            undecided(fn, node, "no control-flow graph for %s" % fn.qname)
+        bad = self.unknown_use(fn)
+        if bad:
+            undecided(fn, bad[0], bad[1])
+        res = set()
+        for fl in self.variants(fn):
+            r = fl.held_at(node) if node is not None else fl.held_at_pos(pos)
+            if r == "?":
+                undecided(fn, node, "lock state not computed here (code the CFG does not reach or does not list)")
+            res.add(r)
+        if len(res) == 1:
+            r = res.pop()
+            if r is None and flag_branch(fn):
+                # `held on some paths only` joins paths that a control-flow flag may make exclusive
+                undecided(fn, node, "lock state differs between paths and " + flag_branch(fn))
+            return r
+        cf, call = self.callers(fn)[0]
+        undecided(fn, node, "lock state depends on how %s is entered: it is called from %s, whether it is also an entry point of its own is not known"
+                  % (fn.qname, cf.qname))
+
+
+def path_doubt(fn, g, path):
+    """a CFG path is evidence only if its branches can be taken independently.  A branch on a local whose value is set by
+    control flow (initialised with / assigned a constant) is not evaluated here: returns a description of such a branch on
+    the path, else None"""
+    if not path:
         return None
-    leaves = dtable.explore(e, atomize, lf, as_expr=True)
-    atoms = dtable.atoms_of(leaves)
-    rows = {}
-    for v, l in dtable.table(leaves, None, atoms):
-        rows[tuple(v[a] for a in atoms)] = (not l["result"]) if negate else l["result"]
-    mono = {}
-    for i, a in enumerate(atoms):
-        up = down = False
-        for key, val in rows.items():
-            if not key[i]:
-                k2 = key[:i] + (True,) + key[i + 1:]
-                if rows[k2] and not val:
-                    up = True
-                if val and not rows[k2]:
-                    down = True
-        mono[a] = "up" if up and not down else "down" if down and not up else "both" if up and down else "none"
-    # canonical text of the predicate: its truth table (so `wait(lock, pred)` and `while (!pred) wait(lock)` read the same)
-    text = "{" + ",".join(atoms) + ":" + "".join("1" if rows[k] else "0" for k in sorted(rows)) + "}"
-    return text, mono, lf
+    flags = control_flags(fn)
+    for b, s in zip(path, path[1:]):
+        raw = [t for t in g.blocks[b].get("succ", []) if t is not None]
+        els = g.elements(b)
+        if len(set(raw)) < 2 or not els or not isinstance(els[-1], int):
+            continue
+        cond = fn.byid(els[-1])
+        for y in ir.walk(cond):
+            if y["k"] == "DeclRefExpr" and y["ref"]["id"] in flags:
+                return "the witness path branches on the local `%s` (line %s), whose value is set by control flow" % (flags[y["ref"]["id"]], cond.get("l"))
+    return None
 
 
+def control_flags(fn):
+    flags = {}
+    for x in fn.nodes():
+        if x["k"] == "VarDecl" and x.get("did") is not None and kids(x) and kids(x)[0] is not None and const_int(kids(x)[0]) is not None:
+            flags[x["did"]] = x.get("name")
+        b = match.binop(x, ("=",))
+        if b and ref_of(b[1]) is not None and const_int(b[2]) is not None:
+            flags[ref_of(b[1])] = strip_casts(b[1])["ref"]["name"]
+    return flags
+
+
+def flag_branch(fn):
+    """description of a branch of fn on a local whose value is set by control flow (a dataflow over all paths treats both
+    of its edges as possible), else None"""
+    flags = control_flags(fn)
+    for x in fn.nodes():
+        if x["k"] in ("IfStmt", "WhileStmt", "ForStmt", "DoStmt", "ConditionalOperator"):
+            cond = kids(x)[1] if x["k"] in ("ForStmt", "DoStmt") and len(kids(x)) > 1 else (kids(x)[0] if kids(x) else None)
+            for y in ir.walk(cond):
+                if y["k"] == "DeclRefExpr" and y["ref"]["id"] in flags:
+                    return "%s branches on the local `%s` (line %s), whose value is set by control flow" % (fn.name, flags[y["ref"]["id"]], x.get("l"))
+    return None
+
+
+# ------------------------------------------------------------------------------------------------ wait predicates
 def field_of_atomic(e):
     """field name if e is (a load of) this->field, possibly through atomic conversion / load()"""
     e = strip_casts(e)
@@ -74,88 +324,520 @@ def field_of_atomic(e):
     f = match.this_field(e)
     if f:
         return f
-    if "callee" in e and e.get("member_call") and e["callee"]["name"] in ("load", "operator unsigned long", "operator bool", "operator int") \
-            or ("callee" in e and e.get("member_call") and e["callee"]["name"].startswith("operator ")):
+    if "callee" in e and e.get("member_call") and kids(e) and (e["callee"]["name"] == "load" or e["callee"]["name"].startswith("operator ")):
         return match.this_field(kids(e)[0])
     return None
 
 
-def field_writes(fn):
-    """[(node, field, effect)] effect: atom -> new truth direction ('true'|'false'|'unknown')"""
-    out = []
-    for x in fn.nodes():
-        if "callee" in x and (x.get("member_call") or x["k"] == "CXXOperatorCallExpr") and kids(x):
-            f = match.this_field(kids(x)[0])
-            name = x["callee"]["name"]
-            if f and not x["callee"].get("const"):
-                if name in ("push_back", "emplace_back", "push_front", "emplace_front", "push", "emplace"):
-                    out.append((x, f, {f + ".empty": "false"}))
-                elif name in ("pop_front", "pop_back", "pop", "clear", "erase"):
-                    out.append((x, f, {f + ".empty": "true"}))
-                elif name in ("operator++", "fetch_add"):
-                    out.append((x, f, {f + "==0": "false"}))
-                elif name in ("operator--", "fetch_sub"):
-                    out.append((x, f, {f + "==0": "true"}))
-                elif name in ("operator=", "store", "exchange"):
-                    v = const_int(kids(x)[1]) if len(kids(x)) > 1 else None
-                    out.append((x, f, {f: "true" if v else "false" if v is not None else "unknown", f + "==0": "true" if v == 0 else "false" if v else "unknown"}))
-        b = match.binop(x, ("=",))
-        if b and match.this_field(b[1]) and strip_casts(b[1])["k"] == "MemberExpr":
-            f = match.this_field(b[1])
-            v = const_int(b[2])
-            out.append((x, f, {f: "true" if v else "false" if v is not None else "unknown"}))
-        if x["k"] == "CompoundAssignOperator" and x.get("op") in ("+=", "-=") and match.this_field(kids(x)[0]):
-            f = match.this_field(kids(x)[0])
-            out.append((x, f, {f + "==0": "false" if x["op"] == "+=" else "true"}))
-        u = match.unop(x, ("++", "--"))
-        if u and match.this_field(u[1]) and x["k"] == "UnaryOperator":
-            out.append((x, match.this_field(u[1]), {match.this_field(u[1]) + "==0": "false" if u[0] == "++" else "true"}))
-    return out
+def field_node(e):
+    e = strip_casts(e)
+    if e is not None and e["k"] != "MemberExpr" and kids(e):
+        e = strip_casts(kids(e)[0])
+    return e
 
 
-def lambda_always_locked(tu, fns, flows, lam):
-    """a named lambda (auto f = [..]{..};) counts as evaluated under the mutex if each use of the variable is either the
-    predicate argument of a condition-variable wait or a direct call at a point where the mutex is held"""
+def zero_test(n):
+    """(operand, is_zero) if n compares an operand with a constant in a way that, for an unsigned operand, decides operand == 0:
+    x == 0, 0 == x, x != 0, x > 0, 0 < x, x >= 1, x < 1, x <= 0, ..."""
+    b = match.binop(n, ("==", "!=", "<", ">", "<=", ">="))
+    if not b:
+        return None
+    op, l, r = b
+    if const_int(l) is not None and const_int(r) is None:
+        op = {"<": ">", ">": "<", "<=": ">=", ">=": "<=", "==": "==", "!=": "!="}[op]
+        l, r = r, l
+    c = const_int(r)
+    if c is None or const_int(l) is not None:
+        return None
+    if op not in ("==", "!=") and "unsigned" not in (strip_casts(l).get("ty") or "") and "size_t" not in (strip_casts(l).get("ty") or ""):
+        return None
+    if (op, c) in (("==", 0), ("<=", 0), ("<", 1)):
+        return l, True
+    if (op, c) in (("!=", 0), (">", 0), (">=", 1)):
+        return l, False
+    return None
+
+
+def size_of_field(e):
+    e = strip_casts(e)
+    if e is not None and "callee" in e and e.get("member_call") and e["callee"]["name"] in ("size", "length") and kids(e):
+        return match.this_field(kids(e)[0])
+    return None
+
+
+def pred_atom(n, run=None):
+    """canonical atom of a boolean leaf of a wait predicate: (`f.empty` | `f==0` | `f`, negated), else None"""
+    s = strip_casts(n)
+    if s is None:
+        return None
+    if "callee" in s and s.get("member_call") and s["callee"]["name"] == "empty" and kids(s) and match.this_field(kids(s)[0]):
+        return (match.this_field(kids(s)[0]) + ".empty", False)
+    z = zero_test(s)
+    if z:
+        if size_of_field(z[0]):
+            return (size_of_field(z[0]) + ".empty", not z[1])
+        f = field_of_atomic(z[0])
+        if f and not is_bool_field(field_node(z[0])):
+            return (f + "==0", not z[1])
+        if (strip_casts(z[0]).get("ty") or "").replace("const ", "") == "bool":
+            a = pred_atom(z[0])          # b == false, b != false
+            if a:
+                return (a[0], a[1] != z[1])
+        return None
+    if size_of_field(s):
+        return (size_of_field(s) + ".empty", True)
+    f = field_of_atomic(s)
+    if f:
+        if is_bool_field(field_node(s)):
+            return (f, False)
+        return (f + "==0", True)
+    return None
+
+
+def pred_info(tu, wait):
+    """(canonical text, {atom: monotone direction}, function holding the predicate) of the predicate of a wait:
+    a lambda (inline or named), or the negated condition of the loop that re-checks around a bare wait"""
+    lam = wait["pred"]
+    negate = False
+    if lam is None:
+        e = wait["loop_cond"]
+        negate = True
+        lf = wait["fn"]
+    else:
+        lf = tu.by_did.get(lam.get("fn"))
+        if lf is None:
+            raise dtable.Undecidable("predicate lambda body not in IR")
+        e = dtable.stmts_as_expr(kids(lf.body))
+        if e is None:
+            raise dtable.Undecidable("%s: body of the predicate lambda is not of the form decl* (if (c) return e;)* return e;" % lf.loc)
+    leaves = dtable.explore(e, pred_atom, lf, as_expr=True)
+    atoms = sorted(dtable.atoms_of(leaves))
+    rows = {}
+    for v, l in dtable.table(leaves, None, atoms):
+        rows[tuple(v[a] for a in atoms)] = (not l["result"]) if negate else l["result"]
+    mono = {}
+    for i, a in enumerate(atoms):
+        up_ = down = False
+        for key, val in rows.items():
+            if not key[i]:
+                k2 = key[:i] + (True,) + key[i + 1:]
+                if rows[k2] and not val:
+                    up_ = True
+                if val and not rows[k2]:
+                    down = True
+        mono[a] = "up" if up_ and not down else "down" if down and not up_ else "both" if up_ and down else "none"
+    # canonical text of the predicate: its truth table over the atoms it depends on, in sorted order (so that `wait(lock, pred)`,
+    # `while (!pred) wait(lock)` and a predicate with its conjuncts in another order read the same)
+    rel = [i for i, a in enumerate(atoms) if mono[a] != "none"]
+    proj = {}
+    for key, val in rows.items():
+        proj[tuple(key[i] for i in rel)] = val
+    text = "{" + ",".join(atoms[i] for i in rel) + ":" + "".join("1" if proj[k] else "0" for k in sorted(proj)) + "}"
+    return text, dict((a, m) for a, m in mono.items() if m != "none"), lf
+
+
+def recheck_loop_cond(fn, wnode):
+    """condition of the innermost loop around a bare wait if leaving the loop means that the condition was false:
+    (cond, None) | (None, why not)"""
+    par = fn.parent(wnode)
+    while par is not None and par["k"] not in ("WhileStmt", "DoStmt", "ForStmt", "CXXForRangeStmt"):
+        par = fn.parent(par)
+    if par is None:
+        return None, "no loop"
+    if par["k"] == "CXXForRangeStmt":
+        return None, "range-for around the wait"
+    init, cond, inc, body = match.loop_parts(par)
+    if cond is None or const_int(cond) is not None:
+        return None, "the loop around the wait is left by other means than its condition"
+    if any(y["k"] in ("BreakStmt", "ReturnStmt", "GotoStmt") for y in ir.walk(body)):
+        return None, "the loop around the wait has more than one exit"
+    return cond, None
+
+
+# ------------------------------------------------------------------------------------------------ lambdas
+def lambda_site(fns, lam):
     for fn in fns:
         for x in fn.nodes():
             if x["k"] == "LambdaExpr" and x.get("fn") == lam.did:
-                par = fn.parent(x)
-                while par is not None and par["k"] not in ("VarDecl", "CompoundStmt"):
-                    par = fn.parent(par)
-                if par is None or par["k"] != "VarDecl":
-                    return False
-                var = par["did"]
-                uses = [y for y in fn.nodes() if y["k"] == "DeclRefExpr" and y["ref"]["id"] == var]
-                if not uses:
-                    return False
-                for u in uses:
-                    q = fn.parent(u)
-                    while q is not None and q["k"] in ("ImplicitCastExpr", "CXXConstructExpr", "MaterializeTemporaryExpr"):
-                        q = fn.parent(q)
-                    if q is not None and "callee" in q and q["callee"]["name"] in ("wait", "wait_for", "wait_until"):
-                        continue
-                    if q is not None and "callee" in q and q.get("op") == "()" and flows[fn.did].held_at(q) is True:
-                        continue
-                    return False
-                return True
-    return False
+                return fn, x
+    return None, None
 
 
-def same_hold(g, wf, fn, pa, pb):
-    """positions pa and pb are executed in one hold of the mutex: the lock is held at both and no unlock()/wait lies on a
-    path between them (in the order in which they are executed)"""
-    if pa is None or pb is None or wf.held_at_pos(pa) is not True or wf.held_at_pos(pb) is not True:
+def lambda_evaluations(locks, fns, lam):
+    """where the body of a lambda of a pool member is evaluated: ('pred', None) for a wait predicate, else
+    ('at', [(fn, node)]) - the calls during which it runs on the calling thread.  Undecidable for every other use."""
+    fn, x = lambda_site(fns, lam)
+    if fn is None:
+        undecided(lam, None, "the expression that creates this lambda was not found in a member of the pool")
+
+    def use_of(node):
+        p, c, _ = up(fn, node)
+        while p is not None and p["k"] in ("CXXConstructExpr", "CXXTemporaryObjectExpr") and len(kids(p)) == 1:
+            p, c, _ = up(fn, p)
+        return p, c
+    p, c = use_of(x)
+    sites = []
+
+    def classify(p, c, what):
+        if p is not None and "callee" in p:
+            name = p["callee"]["name"]
+            if p.get("member_call") and name in WAITS and "condition_variable" in (p["callee"].get("record") or "") and not is_first(p, c):
+                return "pred"
+            if is_invoke(p) and is_first(p, c):
+                sites.append((fn, p))
+                return "at"
+            if name in SYNC_ALGOS and (p["callee"].get("qname") or "").startswith("std::"):
+                sites.append((fn, p))
+                return "at"
+        undecided(fn, x, "%s is used in a way that does not tell where it runs (%s)" % (what, dtable.describe(p)[:50] if p is not None else "?"))
+    if p is not None and p["k"] == "VarDecl":
+        var = p["did"]
+        uses = [y for y in fn.nodes() if y["k"] == "DeclRefExpr" and y["ref"]["id"] == var]
+        if not uses:
+            undecided(fn, x, "the lambda `%s` is not used in %s itself" % (p.get("name"), fn.qname))
+        kinds = set(classify(*use_of(u), what="the lambda `%s`" % p.get("name")) for u in uses)
+        return ("pred", None) if kinds == {"pred"} else ("at", sites)
+    k = classify(p, c, "the lambda")
+    return ("pred", None) if k == "pred" else ("at", sites)
+
+
+# ------------------------------------------------------------------------------------------------ TAKE-ATOMIC
+class QueueStates:
+    """forward may-analysis over the CFG of fn: which valuations of (jobs_.empty(), monotone flags such as terminate_) are
+    possible before every element.  The queue only changes under mutex_, so what a branch or the predicate of a wait has
+    established about it stays true until the mutex is released, re-acquired or waited on (then the emptiness is
+    forgotten); a flag that is only ever set to true may flip to true at any time.  Branch conditions and wait predicates
+    are evaluated as truth tables over these atoms (any spelling, either branch, through && || ! ?:), every other atom is
+    free.  Whatever touches the queue in a way that is not classified is listed in `unknown`."""
+
+    def __init__(self, tu, fn, g, locks, flags):
+        self.fn, self.g, self.unknown = fn, g, []
+        self.E = QUEUE + ".empty"
+        self.keys = sorted(set(flags) | {self.E})
+        self.flags = [k for k in self.keys if k != self.E]
+        guards = locks.guards(fn)
+        decl_guards = set(locks.base[fn.did].decl_at)
+        ei = self.keys.index(self.E)
+        top = frozenset(self._all())
+
+        def with_e(v, e):
+            return v[:ei] + (e,) + v[ei + 1:]
+
+        def havoc(S):
+            return frozenset(with_e(v, e) for v in S for e in (False, True))
+
+        def close(S):
+            out = set(S)
+            for k in self.flags:
+                i = self.keys.index(k)
+                out |= set(v[:i] + (True,) + v[i + 1:] for v in out)
+            return frozenset(out)
+
+        def atomize(n, run):
+            s = strip_casts(n)
+            if s is None:
+                return None
+            a = pred_atom(s)
+            if a is not None:
+                return a
+            k = s["k"]
+            if (k == "UnaryOperator" and s.get("op") == "!") or (k == "BinaryOperator" and s.get("op") in ("&&", "||", ",")) or \
+                    k in ("ConditionalOperator", "CXXBoolLiteralExpr") or const_int(s) is not None:
+                return None
+            if k == "DeclRefExpr" and s["ref"].get("kind") in ("local", "param"):
+                did = s["ref"]["id"]
+                for y in self.cur_fn.nodes():
+                    b = match.binop(y, ("=",))
+                    if (y["k"] == "VarDecl" and y.get("did") == did and kids(y) and mentions(kids(y)[0], QUEUE)) or \
+                            (b and ref_of(b[1]) == did and mentions(b[2], QUEUE)):
+                        self.unknown.append((s, "branch on the local `%s`, which is computed from %s" % (s["ref"]["name"], QUEUE)))
+            elif mentions(s, QUEUE) or any("callee" in y and y["callee"].get("did") in locks.by_did and
+                                           QUEUE in reach_fields(locks, locks.by_did[y["callee"]["did"]]) for y in ir.walk(s)):
+                self.unknown.append((s, "test of %s in a form that is not understood: %s" % (QUEUE, dtable.describe(s)[:50])))
+            return ("opaque:%s" % s["id"], False)
+
+        def refine(S, cond, truth, in_fn):
+            """the valuations of S under which cond can evaluate to truth"""
+            self.cur_fn = in_fn
+            try:
+                leaves = dtable.explore(cond, atomize, in_fn, as_expr=True)
+            except dtable.Undecidable:
+                if mentions(cond, QUEUE):
+                    self.unknown.append((cond, "test of %s in a form that is not understood: %s" % (QUEUE, dtable.describe(cond)[:50])))
+                return S
+            sel = [l["val"] for l in leaves if l["result"] == truth]
+            return frozenset(v for v in S if any(all(val.get(k, v[i]) == v[i] for i, k in enumerate(self.keys)) for val in sel))
+
+        preds = {}
+        for w in sync.wait_calls(fn):
+            e = None
+            if w["pred"] is not None:
+                lf = tu.by_did.get(w["pred"].get("fn"))
+                e = dtable.stmts_as_expr(kids(lf.body)) if lf is not None else None
+                preds[w["node"]["id"]] = (e, lf)
+            else:
+                preds[w["node"]["id"]] = (None, None)
+
+        def transfer(el, S):
+            if isinstance(el, dict):
+                if el.get("dtor") in guards:
+                    return havoc(S)
+                return S
+            n = fn.byid(el)
+            if n is None:
+                return S
+            if n["k"] == "DeclStmt" and n["id"] in decl_guards:
+                return havoc(S)
+            if "callee" in n and kids(n) and (n.get("member_call") or n["k"] == "CXXOperatorCallExpr"):
+                name = n["callee"]["name"]
+                obj = kids(n)[0]
+                if name in ("lock", "unlock", "try_lock") and (ref_of(obj) in guards or match.this_field(obj) == MUTEX):
+                    return havoc(S)
+                if name in WAITS and "condition_variable" in (n["callee"].get("record") or ""):
+                    S = close(havoc(S))
+                    e, lf = preds.get(n["id"], (None, None))
+                    if e is not None:
+                        S = refine(S, e, True, lf)      # the wait returns with its predicate true, evaluated under the mutex
+                    return S
+                f = match.this_field(obj)
+                if f == QUEUE:
+                    if name in PUSH:
+                        return frozenset(with_e(v, False) for v in S)
+                    if name == "clear":
+                        return frozenset(with_e(v, True) for v in S)
+                    if name in POP:
+                        return havoc(S)
+                    if name in CONTAINER_READ or n["callee"].get("const"):
+                        return S
+                    self.unknown.append((n, "operation on %s that is not classified: %s" % (QUEUE, dtable.describe(n)[:50])))
+                    return havoc(S)
+                if f in self.flags and name in ("operator=", "store", "exchange"):
+                    i = self.keys.index(f)
+                    return frozenset(v[:i] + (True,) + v[i + 1:] for v in S)
+            if "callee" in n and n["callee"].get("did") in locks.by_did and n["callee"]["did"] != fn.did:
+                rf = reach_fields(locks, locks.by_did[n["callee"]["did"]])
+                if QUEUE in rf or MUTEX in rf:
+                    self.unknown.append((n, "%s() works on %s / %s and was not inlined" % (n["callee"]["name"], QUEUE, MUTEX)))
+                    return top
+            return S
+
+        def edge(p, s, out):
+            raw = g.blocks[p].get("succ", [])
+            els = g.elements(p)
+            if len(raw) == 2 and raw[0] != raw[1] and els and isinstance(els[-1], int) and g.blocks[p].get("term") is not None:
+                cond = fn.byid(els[-1])
+                if cond is not None and s in raw:
+                    return refine(out, cond, raw[0] == s, fn)
+            return out
+        inn = {b: frozenset() for b in g.blocks}
+        inn[g.entry] = top
+        self.state = {}
+        work = [g.entry]
+        rounds = 0
+        done = set()
+        while work:
+            rounds += 1
+            if rounds > 20000:
+                raise ir.AnalysisBroken("queue-state dataflow does not converge in %s" % fn.full)
+            b = work.pop()
+            done.add(b)
+            S = close(inn[b])
+            for i, el in enumerate(g.elements(b)):
+                self.state[(b, i)] = self.state.get((b, i), frozenset()) | S
+                S = close(transfer(el, S))
+            for s in g.succ[b]:
+                new = inn[s] | close(edge(b, s, S))
+                if new != inn[s] or s not in done:
+                    inn[s] = new
+                    work.append(s)
+        # edges that no valuation passes (a branch that contradicts what is known about the queue / the flags at that point)
+        self.dead_edges = set()
+        for b in g.blocks:
+            if not inn[b] and b != g.entry:
+                continue
+            S = close(inn[b])
+            for el in g.elements(b):
+                S = close(transfer(el, S))
+            for s_ in g.succ[b]:
+                if not edge(b, s_, S):
+                    self.dead_edges.add((b, s_))
+        # the unknown list collects duplicates over the rounds
+        seen, uniq = set(), []
+        for n, w in self.unknown:
+            if n["id"] not in seen:
+                seen.add(n["id"])
+                uniq.append((n, w))
+        self.unknown = uniq
+
+    def _all(self):
+        out = [()]
+        for _ in self.keys:
+            out = [v + (b,) for v in out for b in (False, True)]
+        return out
+
+    def maybe_empty(self, node):
+        """None if the node is not in the CFG; else the valuations before it under which the queue is empty"""
+        p = self.g.pos(node)
+        if p is None or p not in self.state:
+            return None
+        ei = self.keys.index(self.E)
+        return [dict(zip(self.keys, v)) for v in sorted(self.state[p]) if v[ei]]
+
+
+def reach_fields(locks, fn, seen=None):
+    """data members mentioned by fn and by the members of the pool it calls"""
+    seen = seen if seen is not None else set()
+    if fn.did in seen:
+        return set()
+    seen.add(fn.did)
+    out = set()
+    for x in fn.nodes():
+        if x["k"] == "MemberExpr" and match.this_field(x):
+            out.add(match.this_field(x))
+        if "callee" in x and x["callee"].get("did") in locks.by_did:
+            out |= reach_fields(locks, locks.by_did[x["callee"]["did"]], seen)
+    return out
+
+
+def pool_calls(locks, fn):
+    """calls in fn of other members of the pool (helpers that were not inlined)"""
+    return [x for x in fn.nodes() if "callee" in x and x["callee"].get("did") in locks.by_did and x["callee"]["did"] != fn.did]
+
+
+def same_hold(locks, fn, pa, pb):
+    """positions pa and pb are executed in one hold of the mutex: the lock is held at both and no release / acquisition
+    (unlock, lock, wait, construction or destruction of a guard) lies on a path between them (in the order in which they are
+    executed).  True / False; undecidable if neither comes first"""
+    g = locks.g(fn)
+    if locks.held(fn, pos=pa) is not True or locks.held(fn, pos=pb) is not True:
         return False
     first, second = (pa, pb) if g.dominates(pa, pb) else (pb, pa) if g.dominates(pb, pa) else (None, None)
     if first is None:
-        return False
-    rel = [g.pos(u) for u in fn.nodes() if "callee" in u and u.get("member_call") and u["callee"]["name"] in ("unlock", "wait", "wait_for", "wait_until") and g.pos(u)]
+        undecided(fn, None, "order of the busy_ increment and the removal from the queue differs between paths")
+    guards = locks.guards(fn)
+    rel = [g.pos(u) for u in fn.nodes() if "callee" in u and u.get("member_call") and u["callee"]["name"] in ("unlock", "lock", "try_lock") + WAITS and g.pos(u)]
+    rel += [g.pos(u) for u in fn.nodes() if u["k"] == "DeclStmt" and u["id"] in locks.base[fn.did].decl_at and g.pos(u)]
+    rel += [(b, i) for b in g.blocks for i, el in enumerate(g.elements(b)) if isinstance(el, dict) and el.get("dtor") in guards]
+    rel = [r for r in rel if r != first and r != second]
     for r in rel:
         if g.path_between_avoiding(first, r, [first]) is not None and g.path_between_avoiding(r, second, [first]) is not None:
             return False
     return True
 
 
+# ------------------------------------------------------------------------------------------------ JOIN: which threads are joined
+class JoinSkel(skel.Skel):
+    """skeleton evaluation of a function that joins the worker threads, for a pool of n threads"""
+    BASE = 1000
+
+    def __init__(self, fn, n, tu):
+        self.n = n
+        self.joined = []
+        skel.Skel.__init__(self, fn, {}, None, self.on_event, max_iter=16, tu=tu)
+
+    def thread_index(self, obj, arrow):
+        o = strip_casts(obj)
+        if not arrow and "callee" in o and self.tu is not None and o["callee"].get("did") in self.tu.by_did and \
+                self.tu.by_did[o["callee"]["did"]].record == TP and o.get("member_call") and kids(o) and strip_casts(kids(o)[0])["k"] == "This":
+            # an accessor of the pool that returns a reference: thread(i)
+            cal = self.tu.by_did[o["callee"]["did"]]
+            rets = [y for y in ir.walk(cal.body) if y["k"] == "ReturnStmt"] if cal.body else []
+            args = kids(o)[1:] if o.get("member_call") else kids(o)
+            if len(rets) == 1 and kids(rets[0]) and len(args) == len(cal.params):
+                saved = dict(self.env)
+                for p_, a in zip(cal.params, args):
+                    self.env[p_["did"]] = self.ev(a)
+                try:
+                    return self.thread_index(kids(rets[0])[0], False)
+                finally:
+                    self.env = saved
+            return None
+        ty = (o.get("ty") or "").rstrip()
+        if arrow or ty.endswith("*"):
+            a = self.ev(obj)
+            return a - self.BASE if isinstance(a, int) and not isinstance(a, bool) else None
+        key = self.lvalue(obj)
+        if isinstance(key, tuple) and key[0] == "elem" and key[1] == ("field", "threads_"):
+            return key[2]
+        if isinstance(key, tuple) and key[0] == "mem" and isinstance(key[1], int):
+            return key[1] - self.BASE
+        return None
+
+    def on_event(self, e, sk):
+        if "callee" not in e or not kids(e):
+            return NotImplemented
+        name = e["callee"]["name"]
+        if e.get("member_call"):
+            obj = kids(e)[0]
+            if match.this_field(obj) == "threads_":
+                if name in ("size",):
+                    return self.n
+                if name == "empty":
+                    return self.n == 0
+                if name in ("begin", "cbegin", "data"):
+                    return self.BASE
+                if name in ("end", "cend"):
+                    return self.BASE + self.n
+                if name in ("operator[]", "at"):
+                    return NotImplemented
+                raise dtable.Undecidable("%s: operation on threads_ not understood: %s" % (self.fn.nloc(e), dtable.describe(e)[:50]))
+            if "thread" in (e["callee"].get("record") or ""):
+                if name == "joinable":
+                    return True          # every worker thread was started by the constructor and is joined only here
+                if name == "join":
+                    self.joined.append(self.thread_index(obj, e.get("arrow")))
+                    return None
+            return NotImplemented
+        if name in ("for_each",) and len(kids(e)) == 3:
+            first, last = self.ev(kids(e)[0]), self.ev(kids(e)[1])
+            lam = [y for y in ir.walk(kids(e)[2]) if y["k"] == "LambdaExpr"]
+            lf = self.tu.by_did.get(lam[0].get("fn")) if len(lam) == 1 else None
+            if not isinstance(first, int) or not isinstance(last, int) or lf is None or len(lf.params) != 1 or last - first > 64:
+                raise dtable.Undecidable("%s: for_each over the threads not understood" % self.fn.nloc(e))
+            saved_fn, saved_alias = self.fn, dict(self.alias)
+            self.fn = lf
+            try:
+                for a in range(first, last):
+                    self.alias[lf.params[0]["did"]] = ("mem", a)
+                    try:
+                        self.run(kids(lf.body))
+                    except skel.Return:
+                        pass
+            finally:
+                self.fn, self.alias = saved_fn, saved_alias
+            return None
+        return NotImplemented
+
+    def stmt(self, s):
+        if s is not None and s["k"] == "CXXForRangeStmt":
+            ch = kids(s)
+            if len(ch) >= 3 and match.this_field(ch[0]) == "threads_" and ch[1] is not None and ch[1]["k"] == "VarDecl" and \
+                    (ch[1].get("isref") or (ch[1].get("ty") or "").rstrip().endswith("&")):
+                for i in range(self.n):
+                    self.alias[ch[1]["did"]] = ("elem", ("field", "threads_"), i)
+                    try:
+                        self.stmt(ch[2])
+                    except skel._Break:
+                        break
+                    except skel._Continue:
+                        pass
+                return
+            raise dtable.Undecidable("%s: range-for not understood" % self.fn.nloc(s))
+        skel.Skel.stmt(self, s)
+
+
+def joined_threads(tu, fn, n):
+    sk = JoinSkel(fn, n, tu)
+    try:
+        sk.run(kids(fn.body))
+    except skel.Return:
+        pass
+    except skel.Diverges as d:
+        raise dtable.Undecidable("%s: a loop of the skeleton does not end for %d threads" % (fn.nloc(d.loop), n))
+    return sk.joined
+
+
+# ------------------------------------------------------------------------------------------------ the rules
 def run(ck):
     ck.explanation = (
         "Lock-state dataflow (engine B) over the CFG of every ThreadPool member: mutex_ held / not held at every element, through RAII guards, "
@@ -165,15 +847,16 @@ def run(ck):
         "predicate - polarity derived from the predicate's truth table - is followed on all paths by a notify on that condition variable, with the "
         "mutex held at the write or at the notify), NOTIFY-KIND (notify_one only where one predicate is shared by all waiters and one unit is handed "
         "out), NO-BARE-WAIT, BUSY-PAIR, JOIN-UNLOCKED. Whole-schedule properties (absence of deadlock / lost wake-up, exactly-once) are argued "
-        "from these necessary conditions, not explored.")
+        "from these necessary conditions, not explored. A violation is reported on positive evidence only (lock state over recognised lock "
+        "operations, a CFG path avoiding fully classified operations, a truth table, the join loop evaluated for 0/1/3 threads); an "
+        "unrecognised construct gives `cannot decide`.")
     tu = ir.extract("tlx/thread_pool.cpp", ndebug=True)
     fns = [f for f in tu.find(record=TP)]
     ck.require(len(fns) >= 10, "ThreadPool members not found")
-    flows = {}
-    for fn in fns:
-        if fn.cfg:
-            flows[fn.did] = sync.LockFlow(fn, MUTEX)
+    locks = Locks(tu, fns)
     lambdas = [f for f in tu.functions if f.kind == "lambda" and f.qname.startswith(TP + "::")]
+    uses = {fn.did: field_uses(fn) for fn in fns}
+
     # ---- waits and predicates
     waits = []
     for fn in fns:
@@ -182,164 +865,310 @@ def run(ck):
             waits.append(w)
     ck.require(len(waits) >= 3, "expected at least 3 condition-variable waits, found %d" % len(waits))
     preds = {}           # cv -> list of (text, mono, fn)
-    pred_lambda_ids = set()
-    for w in waits:
+    unknown_pred = {}    # cv -> why a predicate waited for on it is not known
+
+    def check_wait(w):
         fn = w["fn"]
-        if w["pred"] is None and w.get("loop_cond") is not None:
-            text, mono, lf = pred_info(tu, w)
-            preds.setdefault(w["cv"], []).append((text, mono, fn))
-            held = flows[fn.did].held_at(w["node"])
-            if held is not True:
-                ck.violation("NO-BARE-WAIT", fn.qname, "%s:%s:unlocked" % (fn.name, w["cv"]), "wait() is called without holding the mutex", fn.nloc(w["node"]))
-            else:
-                ck.ok("NO-BARE-WAIT", "%s %s" % (fn.qname, w["cv"]), "wait inside `while (!predicate)` with the mutex held: %s" % text)
-            continue
-        if w["pred"] is None:
-            # bare wait: must sit in a loop re-checking
-            par = fn.parent(w["node"])
-            inloop = False
-            while par is not None:
-                if par["k"] in ("WhileStmt", "DoStmt", "ForStmt"):
-                    inloop = True
-                par = fn.parent(par)
-            if not inloop:
+        if w["cv"] is None:
+            undecided(fn, w["node"], "wait on a condition variable that is not a member named directly")
+        where = "%s %s" % (fn.qname, w["cv"])
+        if w["pred"] is None and w.get("loop_cond") is None:
+            cond, why = recheck_loop_cond(fn, w["node"])
+            if cond is None and why == "no loop":
+                if locks.callers(fn):
+                    unknown_pred[w["cv"]] = "%s: bare wait in %s, which is called from other members" % (fn.nloc(w["node"]), fn.qname)
+                    undecided(fn, w["node"], "bare wait in %s(): the re-check loop may be in the caller %s" % (fn.name, locks.callers(fn)[0][0].qname))
+                if any(y["k"] in ("LabelStmt", "GotoStmt") for y in fn.nodes()):
+                    undecided(fn, w["node"], "bare wait in a function with goto: re-check loop not decided")
                 ck.violation("NO-BARE-WAIT", fn.qname, "%s:%s" % (fn.name, w["cv"]), "wait() without predicate and without an enclosing re-check loop (spurious wake-ups)", fn.nloc(w["node"]))
-            else:
-                ck.ok("NO-BARE-WAIT", "%s %s" % (fn.qname, w["cv"]), "bare wait inside a re-check loop")
-            continue
-        text, mono, lf = pred_info(tu, w)
-        pred_lambda_ids.add(lf.did)
+                return
+            if cond is None:
+                unknown_pred[w["cv"]] = "%s: %s" % (fn.nloc(w["node"]), why)
+                if locks.held(fn, w["node"]) is not True:
+                    ck.violation("NO-BARE-WAIT", fn.qname, "%s:%s:unlocked" % (fn.name, w["cv"]), "wait() is called without holding the mutex", fn.nloc(w["node"]))
+                else:
+                    ck.ok("NO-BARE-WAIT", where, "bare wait inside a re-check loop")
+                return
+            w = dict(w, loop_cond=cond)
+        try:
+            text, mono, lf = pred_info(tu, w)
+        except dtable.Undecidable as e:
+            unknown_pred[w["cv"]] = str(e)
+            raise
         preds.setdefault(w["cv"], []).append((text, mono, fn))
-        held = flows[fn.did].held_at(w["node"])
+        held = locks.held(fn, w["node"])
         if held is not True:
             ck.violation("NO-BARE-WAIT", fn.qname, "%s:%s:unlocked" % (fn.name, w["cv"]), "wait() is called without holding the mutex", fn.nloc(w["node"]))
+        elif w["pred"] is None:
+            ck.ok("NO-BARE-WAIT", where, "wait inside `while (!predicate)` with the mutex held: %s" % text)
         else:
-            ck.ok("NO-BARE-WAIT", "%s %s" % (fn.qname, w["cv"]), "predicate wait with the mutex held: %s" % text)
+            ck.ok("NO-BARE-WAIT", where, "predicate wait with the mutex held: %s" % text)
+    for w in waits:
+        ck.guarded(lambda w=w: check_wait(w))
+
     # ---- LOCKSET
-    n_acc = 0
+    lam_eval = {}
+
+    def check_access(fn, x):
+        f = match.this_field(x)
+        if fn.kind == "lambda":
+            # every use of the lambda counts: a named predicate may also be called directly
+            if fn.did not in lam_eval:
+                lam_eval[fn.did] = lambda_evaluations(locks, fns, fn)
+            kind, sites = lam_eval[fn.did]
+            if kind == "pred":
+                ck.ok("LOCKSET", "%s @%s" % (fn.qname, fn.nloc(x)), "%s read in a wait predicate (evaluated with the mutex held)" % f, nontrivial=False)
+                return
+            for sfn, call in sites:
+                if locks.held(sfn, call) is not True:
+                    ck.violation("LOCKSET", fn.qname, "lambda:" + f, "%s accessed in a lambda that is not a wait predicate and runs at %s, where mutex_ is not held"
+                                 % (f, sfn.nloc(call)), fn.nloc(x))
+                    return
+            ck.ok("LOCKSET", "%s @%s" % (fn.qname, fn.nloc(x)), "%s accessed in a lambda that runs with mutex_ held" % f, nontrivial=False)
+            return
+        if fn.kind in ("ctor",):
+            return
+        for uf, kind, node, info in uses[fn.did]:
+            if uf == f and kind == "unknown" and node["id"] == x["id"]:
+                undecided(fn, x, "%s escapes (bound to a reference / passed on): later accesses are not followed" % f)
+        held = locks.held(fn, x)
+        if held is True:
+            ck.ok("LOCKSET", "%s @%s" % (fn.qname, fn.nloc(x)), "%s accessed with mutex_ held" % f, nontrivial=False)
+        else:
+            ck.violation("LOCKSET", fn.qname, "%s:%s" % (fn.name, f),
+                         "%s is accessed while mutex_ is %s" % (f, "not held" if held is False else "not held on some path"), fn.nloc(x))
     for fn in fns + lambdas:
         for x in fn.nodes():
             if x["k"] == "MemberExpr" and match.this_field(x) in GUARDED:
-                n_acc += 1
-                if fn.kind == "lambda":
-                    if fn.did in pred_lambda_ids or lambda_always_locked(tu, fns, flows, fn):
-                        ck.ok("LOCKSET", "%s @%s" % (fn.qname, fn.nloc(x)), "%s read in a wait predicate (evaluated with the mutex held)" % match.this_field(x), nontrivial=False)
-                    else:
-                        ck.violation("LOCKSET", fn.qname, "lambda:" + match.this_field(x), "%s accessed in a lambda that is not a wait predicate" % match.this_field(x), fn.nloc(x))
-                    continue
-                if fn.kind in ("ctor",):
-                    continue
-                held = flows[fn.did].held_at(x)
-                if held is True:
-                    ck.ok("LOCKSET", "%s @%s" % (fn.qname, fn.nloc(x)), "%s accessed with mutex_ held" % match.this_field(x), nontrivial=False)
-                else:
-                    ck.violation("LOCKSET", fn.qname, "%s:%s" % (fn.name, match.this_field(x)),
-                                 "%s is accessed while mutex_ is %s" % (match.this_field(x), "not held" if held is False else "not held on some path"), fn.nloc(x))
+                ck.guarded(lambda fn=fn, x=x: check_access(fn, x))
+
+    # flags that are only ever set to true (terminate_): what a test has shown about them stays true
+    mono_flags = set()
+    for fn_ in fns:
+        for y in fn_.nodes():
+            if y["k"] == "MemberExpr" and match.this_field(y) and is_bool_field(y):
+                mono_flags.add(match.this_field(y))
+    for fn_ in fns:
+        for f, kind, node, info in uses[fn_.did]:
+            if f in mono_flags and kind not in ("read",) and not (kind == "set" and info is not None and const_int(info) not in (None, 0)) and fn_.kind != "ctor":
+                mono_flags.discard(f)
+    qstates = {}
+
+    def queue_states(fn):
+        if fn.did not in qstates:
+            qstates[fn.did] = QueueStates(tu, fn, locks.g(fn), locks, mono_flags)
+        return qstates[fn.did]
+
     # ---- worker rules
     worker = tu.one(qname=TP + "::worker")
-    wf = flows[worker.did]
-    g = wf.g
-    fronts = [x for x in worker.nodes() if "callee" in x and x.get("member_call") and x["callee"]["name"] == "front" and match.this_field(kids(x)[0]) == "jobs_"]
-    pops = [x for x in worker.nodes() if "callee" in x and x.get("member_call") and x["callee"]["name"] in ("pop_front",) and match.this_field(kids(x)[0]) == "jobs_"]
-    ck.require(len(fronts) == 1 and len(pops) == 1, "worker: front()/pop_front() of the job queue not found")
-    # same hold: no unlock between front and pop
-    unlocks = [x for x in worker.nodes() if "callee" in x and x.get("member_call") and x["callee"]["name"] == "unlock"]
-    pf, pp = g.pos(fronts[0]), g.pos(pops[0])
-    between = [u for u in unlocks if g.pos(u) and g.dominates(pf, g.pos(u)) and g.dominates(g.pos(u), pp)]
-    # dominated by !jobs_.empty()
-    guard_ok = False
-    par = worker.parent(fronts[0])
-    while par is not None:
-        if par["k"] == "IfStmt":
-            c = kids(par)[0]
-            u = match.unop(c, ("!",))
-            if u and match.call_named(u[1], ("empty",)) and match.this_field(kids(strip_casts(u[1]))[0]) == "jobs_" and \
-                    any(y is fronts[0] for y in ir.walk(kids(par)[1])):
-                # no unlock between the test and the take
-                pc = g.pos_deep(c)
-                if not [u2 for u2 in unlocks if g.pos(u2) and g.dominates(pc, g.pos(u2)) and g.dominates(g.pos(u2), pf)]:
-                    guard_ok = True
-        par = worker.parent(par)
-    if between or not guard_ok or not g.dominates(pf, pp):
-        ck.violation("TAKE-ATOMIC", worker.qname, "take", "a job is not taken (front + pop_front) inside one lock hold guarded by !jobs_.empty(): another worker can take the same job", worker.nloc(fronts[0]))
-    else:
-        ck.ok("TAKE-ATOMIC", worker.qname, "front() and pop_front() in one hold of mutex_, dominated by !jobs_.empty()")
-    # job invocation: functor call on a local of delegate type
-    jobvars = [x for x in worker.nodes() if x["k"] == "VarDecl" and "Delegate" in x.get("ty", "")]
-    ck.require(len(jobvars) == 1, "worker: local job object not found")
-    jv = jobvars[0]
-    calls = [x for x in worker.nodes() if "callee" in x and x.get("op") == "()" and kids(x) and ref_of(kids(x)[0]) == jv["did"]]
-    helper = None
-    if not calls:
-        # the invocation may sit in a small helper that receives the job: run_job(job)
-        for x in worker.nodes():
-            if "callee" in x and any(ref_of(a) == jv["did"] for a in kids(x)):
-                cal = tu.by_did.get(x["callee"]["did"])
-                if cal is None or cal.body is None:
-                    continue
-                pidx = [i for i, a in enumerate(kids(x)[(1 if x.get("member_call") else 0):]) if ref_of(a) == jv["did"]]
-                if not pidx or pidx[0] >= len(cal.params):
-                    continue
-                pd = cal.params[pidx[0]]["did"]
-                if any("callee" in y and y.get("op") == "()" and kids(y) and ref_of(kids(y)[0]) == pd for y in cal.nodes()):
-                    calls.append(x)
-                    helper = cal
-    ck.require(len(calls) == 1, "worker: job invocation not found")
-    call = calls[0]
-    if wf.held_at(call) is not False:
-        ck.violation("RUN-UNLOCKED", worker.qname, "job()", "the job is invoked while mutex_ may be held: a job that enqueues another job deadlocks", worker.nloc(call))
-    else:
-        ck.ok("RUN-UNLOCKED", worker.qname, "job() is invoked with mutex_ released")
-    # busy pairing
-    incs = [x for x, f, e in field_writes(worker) if f == "busy_" and e.get("busy_==0") == "false"]
-    decs = [x for x, f, e in field_writes(worker) if f == "busy_" and e.get("busy_==0") == "true"]
-    dones = [x for x, f, e in field_writes(worker) if f == "done_"]
-    pcall = g.pos(call)
-    okb = len(incs) == 1 and len(decs) == 1 and len(dones) == 1 and g.dominates(g.pos(incs[0]), pcall) and \
-        g.postdominates(g.pos(decs[0]), pcall) and g.postdominates(g.pos(dones[0]), pcall) and \
-        wf.held_at(incs[0]) is True and same_hold(g, wf, worker, g.pos(incs[0]), pp)
-    # the increment and the pop happen in one hold of the mutex (either order): otherwise jobs_.empty() && busy_ == 0 is observable
-    # by loop_until_empty(), which reads both under the lock, while a job is in flight
-    if okb and g.dominates(g.pos(dones[0]), g.pos(decs[0])):
-        ck.ok("BUSY-PAIR", worker.qname, "++busy_ (under the lock, before the job leaves the queue) ... job() ... ++done_, --busy_ on every path")
-    else:
-        ck.violation("BUSY-PAIR", worker.qname, "busy", "busy_/done_ accounting does not bracket the job: ++busy_ must happen under the lock before pop_front, "
-                     "++done_ then --busy_ after the job on every path", worker.loc)
-    # exceptions: a job may throw; whatever must happen after the job (counters, re-lock, notify) must not share the try block
-    # with the invocation, otherwise the handler is entered with those steps skipped
-    tries = []
-    q = worker.parent(call)
-    while q is not None:
-        if q["k"] == "CXXTryStmt":
-            tries.append(q)
-        q = worker.parent(q)
-    if not tries and helper is not None and any(y["k"] == "CXXTryStmt" for y in helper.nodes()):
-        ck.ok("EXCEPTION-BALANCED", worker.qname, "the job runs inside %s(), whose try block contains nothing but the invocation" % helper.name)
-        tries = None
-    if tries is None:
-        pass
-    elif not tries:
-        ck.violation("EXCEPTION-BALANCED", worker.qname, "no-try", "the job is invoked outside any try block: a throwing job kills the worker with busy_ still raised",
-                     worker.nloc(call))
-    else:
+    g = locks.g(worker)
+    wuses = uses[worker.did]
+    J = {}
+
+    def take_atomic():
+        takes = [x for x in worker.nodes() if "callee" in x and x.get("member_call") and kids(x) and match.this_field(kids(x)[0]) == QUEUE]
+        fronts = [x for x in takes if x["callee"]["name"] in ("front", "back")]
+        pops = [x for x in takes if x["callee"]["name"] in ("pop_front", "pop_back")]
+        ck.require(fronts and pops, "worker: front()/pop_front() of the job queue not found")
+        J["pops"] = pops
+        qs = queue_states(worker)
+        bad = None
+        for x in fronts + pops:
+            if qs.maybe_empty(x) is None:
+                undecided(worker, x, "queue access not found in the CFG")
+        for lst in (fronts, pops):
+            if bad is None and not any(qs.state[g.pos(x)] for x in lst):
+                # the evaluation shows that no valuation of (jobs_.empty(), flags) passes the conditions in front of the take
+                bad = (lst[0], "%s() is unreachable: the conditions that guard it cannot hold together, no job is ever taken" % lst[0]["callee"]["name"])
+        for x in fronts + pops:
+            st = qs.maybe_empty(x)
+            if st and bad is None:
+                bad = (x, "%s() is reached with %s" % (x["callee"]["name"], ", ".join("%s = %s" % (k, str(v).lower()) for k, v in sorted(st[0].items()))))
+        if bad is None:
+            for x in pops:
+                path = g.path_from_entry_avoiding(g.pos(x), [g.pos(y) for y in fronts if g.pos(y)])
+                if path is not None:
+                    doubt = path_doubt(worker, g, path)
+                    if doubt:
+                        undecided(worker, x, doubt)
+                    bad = (x, "%s() is reached without a preceding front()" % x["callee"]["name"])
+        if bad is not None:
+            if qs.unknown:
+                undecided(worker, qs.unknown[0][0], qs.unknown[0][1])
+            doubt = flag_branch(worker)
+            if doubt:
+                undecided(worker, bad[0], doubt)
+            ck.violation("TAKE-ATOMIC", worker.qname, "take", "a job is not taken (front + pop_front) inside one lock hold guarded by !jobs_.empty(): another worker can take the same job (%s)"
+                         % bad[1], worker.nloc(bad[0]))
+        else:
+            ck.ok("TAKE-ATOMIC", worker.qname, "front() and pop_front() in one hold of mutex_, reached only with !jobs_.empty() established in that hold")
+    ck.guarded(take_atomic)
+
+    def find_job():
+        # job invocation: functor call on a local of delegate type
+        def is_job_var(did):
+            return any(x["k"] == "VarDecl" and x.get("did") == did and "Delegate" in x.get("ty", "") and not x.get("isref")
+                       and not (x.get("ty") or "").rstrip().endswith("&") for x in worker.nodes())
+        calls = [x for x in worker.nodes() if is_invoke(x) and ref_of(kids(x)[0]) is not None and is_job_var(ref_of(kids(x)[0]))]
+        helper = None
+        inner = []
+        if not calls:
+            # the invocation may sit in a small helper that receives the job: run_job(job)
+            for x in worker.nodes():
+                if "callee" in x and any(ref_of(a) is not None and is_job_var(ref_of(a)) for a in kids(x)):
+                    cal = tu.by_did.get(x["callee"]["did"])
+                    if cal is None or cal.body is None:
+                        continue
+                    args = kids(x)[(1 if x.get("member_call") else 0):]
+                    pidx = [i for i, a in enumerate(args) if ref_of(a) is not None and is_job_var(ref_of(a))]
+                    if not pidx or pidx[0] >= len(cal.params):
+                        continue
+                    pd = cal.params[pidx[0]]
+                    inv = [y for y in cal.nodes() if is_invoke(y) and ref_of(kids(y)[0]) == pd["did"]]
+                    if inv:
+                        if not (pd.get("ty") or "").rstrip().endswith("&") or (pd.get("ty") or "").rstrip().endswith("&&"):
+                            undecided(worker, x, "the job is handed to %s() by value / by move: its lifetime is not followed" % cal.name)
+                        calls.append(x)
+                        helper = cal
+                        inner = inv
+                        J["jv_did"] = ref_of(args[pidx[0]])
+        else:
+            J["jv_did"] = ref_of(kids(calls[0])[0])
+        ck.require(len(calls) == 1 and all((ref_of(kids(c)[0]) if helper is None else J["jv_did"]) == J["jv_did"] for c in calls), "worker: job invocation not found")
+        J["call"], J["helper"], J["inner"] = calls[0], helper, inner
+        J["jv"] = [x for x in worker.nodes() if x["k"] == "VarDecl" and x.get("did") == J["jv_did"]][0]
+        if g.pos(calls[0]) is None:
+            undecided(worker, calls[0], "job invocation not found in the CFG")
+        J["pcall"] = g.pos(calls[0])
+    ck.guarded(find_job)
+
+    def run_unlocked():
+        call = J["call"]
+        held = locks.held(worker, call)
+        if held is False and J["helper"] is not None and locks.base.get(J["helper"].did) is not None:
+            for y in J["inner"]:
+                if locks.held(J["helper"], y) is not False:
+                    held = None
+        if held is not False:
+            ck.violation("RUN-UNLOCKED", worker.qname, "job()", "the job is invoked while mutex_ may be held: a job that enqueues another job deadlocks", worker.nloc(call))
+        else:
+            ck.ok("RUN-UNLOCKED", worker.qname, "job() is invoked with mutex_ released")
+
+    def counter_ops():
+        """increments / decrements of busy_ and increments of done_ in worker; everything else done to them must be a read"""
+        for x in pool_calls(locks, worker):
+            cal = locks.by_did[x["callee"]["did"]]
+            if reach_fields(locks, cal) & {"busy_", "done_"}:
+                undecided(worker, x, "%s() works on busy_ / done_ and was not inlined" % cal.name)
+        incs, decs, dones = [], [], []
+        for f, kind, node, info in wuses:
+            if f not in ("busy_", "done_") or kind == "read":
+                continue
+            if kind != "delta" or info[1] != 1 or (f == "done_" and info[0] != "+"):
+                undecided(worker, node, "operation on %s that is not a change by one: %s" % (f, dtable.describe(node)[:50]))
+            if g.pos_deep(node) is None:
+                undecided(worker, node, "counter operation not found in the CFG")
+            (dones if f == "done_" else incs if info[0] == "+" else decs).append(node)
+        return incs, decs, dones
+
+    def evidence(path, node=None):
+        """a CFG path found by a search is the evidence of a violation: not if one of its branches is of unknown feasibility"""
+        doubt = path_doubt(worker, g, path)
+        if doubt:
+            undecided(worker, node, doubt)
+        return True
+
+    def busy_pair():
+        pcall = J["pcall"]
+        incs, decs, dones = counter_ops()
+        J["decs"] = decs
+        pops = J.get("pops") or []
+        if not pops or any(g.pos(x) is None for x in pops):
+            undecided(worker, None, "removal of the job from the queue not found: hold of the busy_ increment not decided")
+        pos = g.pos_deep
+        dead = queue_states(worker).dead_edges
+        good = [n for n in incs if locks.held(worker, n) is True and all(same_hold(locks, worker, pos(n), g.pos(x)) for x in pops)]
+        msg = None
+        # ++busy_ under the lock, in the hold in which the job leaves the queue, on every path to job()
+        # (otherwise jobs_.empty() && busy_ == 0 is observable by loop_until_empty(), which reads both under the lock, while a job is in flight)
+        path = g.path_from_entry_avoiding(pcall, [pos(n) for n in good])
+        if path is not None and evidence(path, J["call"]):
+            msg = "a path reaches job() without ++busy_ under the lock in the hold of pop_front"
+        # --busy_ and ++done_ after the job on every path, ++done_ first
+        if msg is None:
+            for what, lst in (("--busy_", decs), ("++done_", dones)):
+                path = g.path_avoiding(pcall, [pos(n) for n in lst], blocked_edges=dead)
+                if path is not None and evidence(path, J["call"]):
+                    msg = msg or "a path leaves job() without %s" % what
+        if msg is None:
+            for d in decs:
+                path = g.path_between_avoiding(pcall, pos(d), [pos(n) for n in dones], blocked_edges=dead)
+                if path is not None and evidence(path, d):
+                    msg = msg or "--busy_ is reached after job() before ++done_"
+        # balance: no two increments / decrements in a row
+        if msg is None:
+            for lst, other, what in ((decs, incs, "--busy_"), (incs, decs, "++busy_")):
+                for a in lst:
+                    for b in lst:
+                        path = g.path_between_avoiding(pos(a), pos(b), [pos(n) for n in other], blocked_edges=dead)
+                        if path is not None and evidence(path, a):
+                            msg = msg or "%s is executed twice without the opposite step in between" % what
+        if msg is None:
+            ck.ok("BUSY-PAIR", worker.qname, "++busy_ (under the lock, in the hold in which the job leaves the queue) ... job() ... ++done_, --busy_ on every path")
+        else:
+            ck.violation("BUSY-PAIR", worker.qname, "busy", "busy_/done_ accounting does not bracket the job: ++busy_ must happen under the lock before pop_front, "
+                         "++done_ then --busy_ after the job on every path (%s)" % msg, worker.loc)
+
+    def exception_balanced():
+        # exceptions: a job may throw; whatever must happen after the job (counters, re-lock, notify) must not share the try block
+        # with the invocation, otherwise the handler is entered with those steps skipped
+        call, helper, pcall = J["call"], J["helper"], J["pcall"]
+        tries = []
+        q = worker.parent(call)
+        while q is not None:
+            if q["k"] == "CXXTryStmt":
+                tries.append(q)
+            q = worker.parent(q)
+        if not tries and helper is not None and any(y["k"] == "CXXTryStmt" for y in helper.nodes()):
+            ck.ok("EXCEPTION-BALANCED", worker.qname, "the job runs inside %s(), whose try block contains nothing but the invocation" % helper.name)
+            return
+        if not tries:
+            # closed world: the ancestors of the call are all there is; worker() is a thread main function, nothing catches above it
+            if locks.callers(worker):
+                undecided(worker, call, "worker() is called from %s: a try block may be there" % locks.callers(worker)[0][0].qname)
+            ck.violation("EXCEPTION-BALANCED", worker.qname, "no-try", "the job is invoked outside any try block: a throwing job kills the worker with busy_ still raised",
+                         worker.nloc(call))
+            return
         t = tries[0]
         block = kids(t)[0]
-        skipped = []
-        for x, f, e in field_writes(worker):
-            if f in ("busy_", "done_", "idle_") and any(y is x for y in ir.walk(block)):
-                skipped.append((x, f))
-        for x in ir.walk(block):
-            if "callee" in x and x.get("member_call") and x["callee"]["name"] in ("lock", "notify_all", "notify_one"):
-                skipped.append((x, x["callee"]["name"] + "()"))
-        # steps repeated in every handler are fine
         handlers = kids(t)[1:]
+
+        def steps(root):
+            out = []
+            inside = set(y["id"] for y in ir.walk(root))
+            for f, kind, node, info in wuses:
+                if f in ("busy_", "done_", "idle_") and kind in ("delta", "set", "unknown") and node["id"] in inside:
+                    out.append((node, f))
+            for x in ir.walk(root):
+                if "callee" in x and x.get("member_call") and x["callee"]["name"] in ("lock", "notify_all", "notify_one"):
+                    out.append((x, x["callee"]["name"] + "()"))
+            return out
+        in_handlers = [set(w for n, w in steps(h)) for h in handlers]
+        in_try = set(y["id"] for y in ir.walk(t))
+        outside = set(w for n, w in steps(worker.body) if n["id"] not in in_try and g.pos_deep(n) is not None and g.dominates(pcall, g.pos_deep(n)))
         really = []
-        for x, what in skipped:
-            if not g.reachable(pcall, g.pos_deep(x)):
-                continue      # before the job: not skipped by its exception
-            in_all = handlers and all(any((ff == what) and any(y is xx for y in ir.walk(h)) for xx, ff, ee in field_writes(worker)) for h in handlers)
-            if not in_all:
-                really.append((x, what))
+        for x, what in steps(block):
+            px = g.pos_deep(x)
+            if px is None:
+                undecided(worker, x, "step inside the try block not found in the CFG")
+            if handlers and all(what in s for s in in_handlers):
+                continue          # repeated in every handler
+            if g.dominates(pcall, px):
+                if what in outside:
+                    undecided(worker, x, "%s follows job() inside the try block and is also done after job() outside of it: which one the exceptional path reaches is not decided" % what)
+                really.append((x, what))       # executed only after job() returned
+            elif not g.dominates(px, pcall):
+                undecided(worker, x, "%s inside the try block is neither always before nor always after job()" % what)
         if really:
             x, what = really[0]
             ck.violation("EXCEPTION-BALANCED", worker.qname, "try:" + what,
@@ -347,24 +1176,87 @@ def run(ck):
                          "zero and loop_until_empty() / loop_until_terminate() block for ever" % what, worker.nloc(x))
         else:
             ck.ok("EXCEPTION-BALANCED", worker.qname, "the try block around job() contains none of the completion steps (%d handler(s))" % len(handlers))
-    # job lifetime: destroyed unlocked, before completion is signalled
-    dt = [(b, i) for b in g.blocks for i, el in enumerate(g.elements(b)) if isinstance(el, dict) and el.get("dtor") == jv["did"]]
-    ok_l = bool(dt) and bool(decs)
-    why = ""
-    for p in dt:
-        if wf.held_at_pos(p) is not False:
-            ok_l, why = False, "the job object is destroyed while mutex_ is held (a destructor that enqueues deadlocks)"
-        if decs and not g.dominates(p, g.pos(decs[0])) and g.reachable(pcall, p):
-            ok_l, why = False, "the job object outlives the completion signal: loop_until_empty() can return while the job's captures are still alive"
-    asg = [x for x in worker.nodes() if "callee" in x and x.get("op") == "=" and kids(x) and ref_of(kids(x)[0]) == jv["did"]]
-    if asg:
-        ok_l, why = False, "the job variable is re-assigned (the previous closure is destroyed at the assignment, under the lock)"
-    if ok_l:
-        ck.ok("JOB-LIFETIME", worker.qname, "the job object is destroyed with mutex_ released and before --busy_")
-    elif not why:
-        raise dtable.Undecidable("%s: job object lifetime not understood (no destructor point / completion counter found)" % worker.loc)
-    else:
-        ck.violation("JOB-LIFETIME", worker.qname, "job-dtor", why, worker.nloc(jv))
+
+    def job_lifetime():
+        # job lifetime: destroyed unlocked, before completion is signalled
+        jv, pcall = J["jv"], J["pcall"]
+        decs = J.get("decs")
+        if decs is None:
+            decs = counter_ops()[1]
+        destroy = [(b, i) for b in g.blocks for i, el in enumerate(g.elements(b)) if isinstance(el, dict) and el.get("dtor") == jv["did"]]
+        loads = []       # positions at which the variable receives a closure
+        assigns = []     # (position, node) of assignments that destroy the previous closure and store a new one
+        if kids(jv) and kids(jv)[0] is not None:
+            e = strip_casts(kids(jv)[0])
+            if not (e["k"] in ("CXXConstructExpr", "CXXTemporaryObjectExpr") and not kids(e)):
+                p = g.pos_deep(jv)
+                if p is None:
+                    undecided(worker, jv, "declaration of the job object not found in the CFG")
+                loads.append(p)
+        for y in worker.nodes():
+            if y["k"] != "DeclRefExpr" or y["ref"]["id"] != jv["did"]:
+                continue
+            p, c, _ = up(worker, y)
+            if p is not None and "callee" in p and p["callee"]["name"] in ("move", "forward", "addressof", "ref", "cref") and len(kids(p)) == 1:
+                p, c, _ = up(worker, p)
+            if p is not None and p["id"] == J["call"]["id"]:
+                continue
+            if p is not None and is_invoke(p) and is_first(p, c):
+                continue
+            if p is not None and "callee" in p and p.get("op") == "=" and is_first(p, c) and len(kids(p)) == 2:
+                rhs = strip_casts(kids(p)[1])
+                pos_ = g.pos_deep(p)
+                if pos_ is None:
+                    undecided(worker, p, "assignment to the job object not found in the CFG")
+                if rhs is not None and (rhs["k"] == "NullPtr" or (rhs["k"] in ("CXXConstructExpr", "CXXTemporaryObjectExpr") and not kids(rhs))):
+                    destroy.append(pos_)          # job = Job(): the closure dies here
+                else:
+                    assigns.append((pos_, p))
+                    loads.append(pos_)
+                continue
+            if p is not None and "callee" in p and p.get("member_call") and is_first(p, c):
+                if p["callee"]["name"] == "reset":
+                    pos_ = g.pos_deep(p)
+                    if pos_ is None:
+                        undecided(worker, p, "reset of the job object not found in the CFG")
+                    destroy.append(pos_)
+                    continue
+                if p["callee"].get("const"):
+                    continue
+            undecided(worker, y, "use of the job object that is not understood (%s): its lifetime is not followed"
+                      % (dtable.describe(p)[:50] if p is not None and "k" in p and p["k"] not in ("CompoundStmt", "DeclStmt") else "escapes"))
+        if not destroy or not decs:
+            undecided(worker, jv, "job object lifetime not understood (no destructor point / completion counter found)")
+        alive_from = [pcall] + loads
+        dead = queue_states(worker).dead_edges
+        why, at = "", None
+
+        def reaches(src, dst, avoid):
+            if src == dst:
+                return None
+            return g.path_between_avoiding(src, dst, [a for a in avoid if a != dst and a != src], blocked_edges=dead)
+        for d in destroy:
+            for s in alive_from:
+                path = reaches(s, d, destroy)
+                if path is not None and locks.held(worker, pos=d) is not False and evidence(path, jv):
+                    why = why or "the job object is destroyed while mutex_ is held (a destructor that enqueues deadlocks)"
+        for d in decs:
+            path = reaches(pcall, g.pos_deep(d), destroy)
+            if path is not None and evidence(path, d):
+                why = why or "the job object outlives the completion signal: loop_until_empty() can return while the job's captures are still alive"
+        for pa, a in assigns:
+            for s in alive_from:
+                path = g.path_between_avoiding(s, pa, [x for x in destroy if x != s], blocked_edges=dead)
+                if path is not None and locks.held(worker, pos=pa) is not False and evidence(path, a):
+                    why = "the job variable is re-assigned (the previous closure is destroyed at the assignment, under the lock)"
+        if not why:
+            ck.ok("JOB-LIFETIME", worker.qname, "the job object is destroyed with mutex_ released and before --busy_")
+        else:
+            ck.violation("JOB-LIFETIME", worker.qname, "job-dtor", why, worker.nloc(jv))
+    if "call" in J:
+        for rule in (run_unlocked, busy_pair, exception_balanced, job_lifetime):
+            ck.guarded(rule)
+
     # ---- WRITE-NOTIFY and NOTIFY-KIND
     pvars = {}
     for cv, lst in preds.items():
@@ -372,102 +1264,204 @@ def run(ck):
         for text, mono, fn in lst:
             s |= set(mono)
         pvars[cv] = s
-    n_w = 0
+    notes_of = {fn.did: sync.notify_calls(fn) for fn in fns}
+
+    def must_notify(fn, cv, seen=()):
+        """'must' if every path through fn notifies cv, 'may' if some notify of cv (or of an unnamed cv) is reachable, else 'no'"""
+        if fn.did in seen or fn.did not in locks.base:
+            return "may"
+        gg = locks.g(fn)
+        pts, may = [], False
+        for n in notes_of[fn.did]:
+            if n["cv"] in (cv, None):
+                may = True
+                if n["cv"] == cv and gg.pos(n["node"]):
+                    pts.append(gg.pos(n["node"]))
+        for x in pool_calls(locks, fn):
+            r = must_notify(locks.by_did[x["callee"]["did"]], cv, tuple(seen) + (fn.did,))
+            if r != "no":
+                may = True
+            if r == "must" and gg.pos(x):
+                pts.append(gg.pos(x))
+        if pts and gg.path_from_entry_avoiding((gg.exit, 0), pts) is None:
+            return "must"
+        return "may" if may else "no"
+
+    def write_notify(fn, x, f, eff, cv, lst):
+        enabling = unknown_dir = False
+        for text, mono, pfn in lst:
+            for atom, direction in eff.items():
+                if atom in mono:
+                    m = mono[atom]
+                    if direction == "unknown":
+                        enabling = unknown_dir = True
+                    elif m == "both" or (m == "up" and direction == "true") or (m == "down" and direction == "false"):
+                        enabling = True
+        if not enabling:
+            return
+        gg = locks.g(fn)
+        where = "%s: %s -> %s" % (fn.qname, dtable.describe(x)[:40], cv)
+        exc = NOTIFY_EXCEPTIONS.get((fn.name, f, cv))
+        if exc:
+            ck.ok("WRITE-NOTIFY", where, "exception table: " + exc, nontrivial=False)
+            return
+        ns = [n for n in notes_of[fn.did] if n["cv"] == cv and gg.pos(n["node"])]
+        pts = [gg.pos(n["node"]) for n in ns]
+        opaque = [n["node"] for n in notes_of[fn.did] if n["cv"] is None]
+        for c in pool_calls(locks, fn):
+            r = must_notify(locks.by_did[c["callee"]["did"]], cv)
+            if r == "must" and gg.pos(c):
+                pts.append(gg.pos(c))
+            elif r != "no":
+                opaque.append(c)
+        px = gg.pos_deep(x)
+        if px is None:
+            undecided(fn, x, "write not found in the CFG")
+        path = gg.path_avoiding(px, pts, blocked_edges=queue_states(fn).dead_edges)
+        if path is not None:
+            # a notification in the same hold of mutex_ before the write is as good: the woken waiter cannot evaluate its predicate
+            # before the mutex is released, which is after the write
+            before = [gg.pos(n["node"]) for n in ns if gg.dominates(gg.pos(n["node"]), px) and same_hold(locks, fn, gg.pos(n["node"]), px)]
+            if before:
+                ck.ok("WRITE-NOTIFY", where, "notified in the same hold of mutex_ in which the write happens (before the write)")
+                return
+            # evidence: a path from the write to the end of the function without a notification - if everything that could be one is known
+            if unknown_dir:
+                undecided(fn, x, "effect of %s on the predicate of %s not understood" % (dtable.describe(x)[:40], cv))
+            if opaque:
+                undecided(fn, opaque[0], "%s may notify %s; whether it always does is not decided" % (dtable.describe(opaque[0])[:40], cv))
+            if locks.callers(fn):
+                undecided(fn, x, "%s() is called from %s: the notification may follow there" % (fn.name, locks.callers(fn)[0][0].qname))
+            doubt = path_doubt(fn, gg, path)
+            if doubt:
+                undecided(fn, x, doubt)
+            ck.violation("WRITE-NOTIFY", fn.qname, "%s:%s:%s" % (fn.name, f, cv),
+                         "%s may make a predicate of %s true but there is a path on which %s is not notified afterwards (lost wake-up)"
+                         % (dtable.describe(x)[:50], cv, cv), fn.nloc(x))
+            return
+        held_w = locks.held(fn, x)
+        after = [n for n in ns if gg.reachable(px, gg.pos(n["node"]))]
+        if held_w is True:
+            ck.ok("WRITE-NOTIFY", where, "followed by notify on all paths; mutex_ held at the write")
+            return
+        if len(pts) != len(ns):
+            undecided(fn, x, "the notification of %s happens in a helper: lock state there not followed" % cv)
+        held_n = all(locks.held(fn, n["node"]) is True for n in after)
+        if held_n:
+            ck.ok("WRITE-NOTIFY", where, "followed by notify on all paths; mutex_ held at the notify")
+        else:
+            ck.violation("WRITE-NOTIFY", fn.qname, "%s:%s:%s:unlocked" % (fn.name, f, cv),
+                         "%s changes a wait predicate of %s with mutex_ neither held at the write nor at the notify: a waiter that has just "
+                         "evaluated its predicate misses the notification" % (dtable.describe(x)[:50], cv), fn.nloc(x))
     for fn in fns:
         if fn.kind == "ctor" or not fn.cfg:
             continue
-        fl = flows[fn.did]
-        gg = fl.g
-        notes = sync.notify_calls(fn)
-        for x, f, eff in field_writes(fn):
+        for f, kind, x, info in uses[fn.did]:
+            eff = effects_of(f, kind, x, info)
+            if not eff:
+                continue
             for cv, lst in preds.items():
-                enabling = False
-                for text, mono, pfn in lst:
-                    for atom, direction in eff.items():
-                        if atom in mono:
-                            m = mono[atom]
-                            if direction == "unknown" or m == "both" or (m == "up" and direction == "true") or (m == "down" and direction == "false"):
-                                enabling = True
-                if not enabling:
-                    continue
-                n_w += 1
-                where = "%s: %s -> %s" % (fn.qname, dtable.describe(x)[:40], cv)
-                exc = NOTIFY_EXCEPTIONS.get((fn.name, f, cv))
-                if exc:
-                    ck.ok("WRITE-NOTIFY", where, "exception table: " + exc, nontrivial=False)
-                    continue
-                ns = [n for n in notes if n["cv"] == cv and gg.pos(n["node"])]
-                px = gg.pos_deep(x)
-                if not ns or gg.path_avoiding(px, [gg.pos(n["node"]) for n in ns]) is not None:
-                    ck.violation("WRITE-NOTIFY", fn.qname, "%s:%s:%s" % (fn.name, f, cv),
-                                 "%s may make a predicate of %s true but there is a path on which %s is not notified afterwards (lost wake-up)"
-                                 % (dtable.describe(x)[:50], cv, cv), fn.nloc(x))
-                    continue
-                held_w = fl.held_at(x)
-                held_n = all(fl.held_at(n["node"]) is True for n in ns if gg.reachable(px, gg.pos(n["node"])))
-                if held_w is True or held_n:
-                    ck.ok("WRITE-NOTIFY", where, "followed by notify on all paths; mutex_ held at the %s" % ("write" if held_w is True else "notify"))
-                else:
-                    ck.violation("WRITE-NOTIFY", fn.qname, "%s:%s:%s:unlocked" % (fn.name, f, cv),
-                                 "%s changes a wait predicate of %s with mutex_ neither held at the write nor at the notify: a waiter that has just "
-                                 "evaluated its predicate misses the notification" % (dtable.describe(x)[:50], cv), fn.nloc(x))
+                ck.guarded(lambda fn=fn, x=x, f=f, eff=eff, cv=cv, lst=lst: write_notify(fn, x, f, eff, cv, lst))
+
     # notify kind
+    def notify_kind(fn, n):
+        cv = n["cv"]
+        if cv is None:
+            undecided(fn, n["node"], "notification of a condition variable that is not a member named directly")
+        lst = preds.get(cv, [])
+        distinct = sorted(set(t for t, m, f in lst))
+        where = "%s %s.%s" % (fn.qname, cv, n["kind"])
+        if n["kind"] == "notify_all":
+            ck.ok("NOTIFY-KIND", where, "notify_all")
+            return
+        if len(distinct) > 1:
+            ck.violation("NOTIFY-KIND", fn.qname, "%s:%s" % (fn.name, cv),
+                         "%s is waited on with %d different predicates (%s) but signalled with notify_one: the single wake-up can go to a waiter "
+                         "whose predicate is false while the one that could proceed stays blocked" % (cv, len(distinct), " | ".join(distinct)), fn.nloc(n["node"]))
+            return
+        if cv in unknown_pred:
+            undecided(fn, n["node"], "%s is signalled with notify_one but a predicate waited for on it is not understood (%s)" % (cv, unknown_pred[cv]))
+        # one shared predicate: notify_one only for a write that hands out a single unit
+        gg = locks.g(fn)
+        pn = gg.pos(n["node"])
+        if pn is None:
+            undecided(fn, n["node"], "notification not found in the CFG")
+        flagw = []
+        for f, kind, x, info in uses[fn.did]:
+            if kind == "set" and f in pvars.get(cv, ()) and info is not None and const_int(info) is not None and const_int(info) != 0:
+                px = gg.pos_deep(x)
+                if px and gg.reachable(px, pn):
+                    flagw.append(x)
+        if flagw:
+            ck.violation("NOTIFY-KIND", fn.qname, "%s:%s:flag" % (fn.name, cv), "a flag that releases every waiter is published with notify_one", fn.nloc(n["node"]))
+        else:
+            ck.ok("NOTIFY-KIND", where, "single predicate (%s), one unit handed out" % (distinct[0] if distinct else "?"))
     for fn in fns:
-        for n in sync.notify_calls(fn):
-            cv = n["cv"]
-            lst = preds.get(cv, [])
-            distinct = sorted(set(t for t, m, f in lst))
-            where = "%s %s.%s" % (fn.qname, cv, n["kind"])
-            if n["kind"] == "notify_all":
-                ck.ok("NOTIFY-KIND", where, "notify_all")
-                continue
-            if len(distinct) > 1:
-                ck.violation("NOTIFY-KIND", fn.qname, "%s:%s" % (fn.name, cv),
-                             "%s is waited on with %d different predicates (%s) but signalled with notify_one: the single wake-up can go to a waiter "
-                             "whose predicate is false while the one that could proceed stays blocked" % (cv, len(distinct), " | ".join(distinct)), fn.nloc(n["node"]))
-                continue
-            # one shared predicate: notify_one only for a write that hands out a single unit
-            fl = flows[fn.did]
-            gg = fl.g
-            flagw = [x for x, f, eff in field_writes(fn) if any(k == f and v == "true" for k, v in eff.items()) and f in [a for a in pvars.get(cv, ())]
-                     and gg.pos_deep(x) and gg.reachable(gg.pos_deep(x), gg.pos(n["node"]))]
-            if flagw:
-                ck.violation("NOTIFY-KIND", fn.qname, "%s:%s:flag" % (fn.name, cv), "a flag that releases every waiter is published with notify_one", fn.nloc(n["node"]))
-            else:
-                ck.ok("NOTIFY-KIND", where, "single predicate (%s), one unit handed out" % (distinct[0] if distinct else "?"))
-    # ---- join with the mutex released; destructor order
+        for n in notes_of[fn.did]:
+            ck.guarded(lambda fn=fn, n=n: notify_kind(fn, n))
+
+    # ---- join with the mutex released; every thread joined exactly once
+    def join_rule(fn, joins):
+        """joins: [(node of the join call, function that holds it, (site fn, node at whose evaluation it runs))]"""
+        for x, holder, (sfn, at) in joins:
+            if locks.held(sfn, at) is not False:
+                ck.violation("JOIN-UNLOCKED", fn.qname, fn.name + ":join", "threads are joined while mutex_ is held: the workers need it to leave", holder.nloc(x))
+                return
+        bad = None
+        for n in (0, 1, 3):
+            got = joined_threads(tu, fn, n)
+            if any(not isinstance(i, int) or isinstance(i, bool) for i in got):
+                undecided(fn, joins[0][0], "which thread is joined is not understood (%d threads)" % n)
+            if sorted(got) != list(range(n)) and bad is None:
+                bad = (n, got)
+        if bad:
+            ck.violation("JOIN-UNLOCKED", fn.qname, fn.name + ":join-all", "not every worker thread is joined exactly once: with %d threads the threads joined are %s"
+                         % (bad[0], bad[1]), holder.nloc(joins[0][0]))
+        else:
+            ck.ok("JOIN-UNLOCKED", fn.qname, "every thread joined exactly once (evaluated for 0, 1 and 3 threads) with mutex_ released")
+
+    def is_join(x):
+        return "callee" in x and x.get("member_call") and x["callee"]["name"] == "join" and "thread" in (x["callee"].get("record") or "")
+    joins_in = {}
     for fn in fns:
         for x in fn.nodes():
-            if "callee" in x and x.get("member_call") and x["callee"]["name"] == "join" and "thread" in (x["callee"].get("record") or ""):
-                if flows[fn.did].held_at(x) is not False:
-                    ck.violation("JOIN-UNLOCKED", fn.qname, fn.name + ":join", "threads are joined while mutex_ is held: the workers need it to leave", fn.nloc(x))
-                else:
-                    lp = fn.parent(x)
-                    while lp is not None and lp["k"] not in ("ForStmt", "CXXForRangeStmt", "WhileStmt"):
-                        lp = fn.parent(lp)
-                    full = False
-                    if lp is not None and lp["k"] == "CXXForRangeStmt":
-                        full = any(match.this_field(y) == "threads_" for y in ir.walk(kids(lp)[0])) if kids(lp) else False
-                        if not full:
-                            full = any(y["k"] == "MemberExpr" and match.this_field(y) == "threads_" for y in ir.walk(lp))
-                    elif lp is not None and lp["k"] == "WhileStmt":
-                        raise dtable.Undecidable("%s: join loop form not understood" % fn.nloc(lp))
-                    elif lp is not None:
-                        init, cond, inc, body = match.loop_parts(lp)
-                        b = match.binop(cond, ("<", "!="))
-                        full = bool(b and match.call_named(b[2], ("size",)) and match.this_field(kids(strip_casts(b[2]))[0]) == "threads_"
-                                    and any(y["k"] == "VarDecl" and kids(y) and const_int(kids(y)[0]) == 0 for y in ir.walk(init)))
-                    if full:
-                        ck.ok("JOIN-UNLOCKED", fn.qname, "every thread joined with mutex_ released")
-                    else:
-                        ck.violation("JOIN-UNLOCKED", fn.qname, fn.name + ":join-all", "not every worker thread is joined", fn.nloc(x))
+            if is_join(x):
+                joins_in.setdefault(fn.did, (fn, []))[1].append((x, fn, (fn, x)))
+
+    def lambda_joins(lam):
+        sfn, lx = lambda_site(fns, lam)
+        if sfn is None:
+            undecided(lam, None, "threads are joined in a lambda whose creation was not found in a member of the pool")
+        kind, sites = lambda_evaluations(locks, fns, lam)
+        if kind != "at" or len(sites) != 1:
+            undecided(lam, None, "threads are joined in a lambda; where it runs is not understood")
+        for x in lam.nodes():
+            if is_join(x):
+                joins_in.setdefault(sfn.did, (sfn, []))[1].append((x, lam, sites[0]))
+    for lam in lambdas:
+        if any(is_join(x) for x in lam.nodes()):
+            ck.guarded(lambda lam=lam: lambda_joins(lam))
+    for did, (fn, joins) in joins_in.items():
+        ck.guarded(lambda fn=fn, joins=joins: join_rule(fn, joins))
+
     ck.floor("LOCKSET", 6)
     ck.floor("NO-BARE-WAIT", 3)
-    ck.floor("WRITE-NOTIFY", 6)
-    ck.floor("NOTIFY-KIND", 5)
+    # WRITE-NOTIFY / NOTIFY-KIND: floors per function (the destructor may delegate to terminate(); then its own instances vanish)
+    ck.floor("WRITE-NOTIFY", 5)
+    ck.floor("NOTIFY-KIND", 4)
     ck.floor("TAKE-ATOMIC", 1)
     ck.floor("RUN-UNLOCKED", 1)
     ck.floor("BUSY-PAIR", 1)
     ck.floor("EXCEPTION-BALANCED", 1)
     ck.floor("JOB-LIFETIME", 1)
     ck.floor("JOIN-UNLOCKED", 1)
+
+    def per_function_floors():
+        if ck.violations or ck.known_hits:
+            return
+        for rule, need in (("WRITE-NOTIFY", {"worker": 2, "enqueue": 1, "terminate": 2}), ("NOTIFY-KIND", {"worker": 1, "enqueue": 1, "terminate": 2})):
+            for name, n in need.items():
+                q = TP + "::" + name
+                got = sum(1 for r, where, ok_, d in ck.instances if r == rule and (where == q or where.startswith(q + ":") or where.startswith(q + " ")))
+                ck.require(got >= n, "rule %s matched %d instances in %s(), floor confirmed by hand is %d (anchor vanished)" % (rule, got, name, n))
+    ck.guarded(per_function_floors)
